@@ -2,6 +2,7 @@ package bep44
 
 import (
 	"errors"
+	"sync"
 	"time"
 )
 
@@ -17,6 +18,8 @@ type Store interface {
 // decide when to store, or ignore them depending of the BEP 44 definition.
 // It is also in charge of removing expired items.
 type Wrapper struct {
+	// Put and Get read the store and then write to it: one at a time.
+	mu  sync.Mutex
 	s   Store
 	exp time.Duration
 }
@@ -26,6 +29,9 @@ func NewWrapper(s Store, exp time.Duration) *Wrapper {
 }
 
 func (w *Wrapper) Put(i *Item) error {
+	w.mu.Lock()
+	defer w.mu.Unlock()
+
 	if err := Check(i); err != nil {
 		return err
 	}
@@ -48,6 +54,9 @@ func (w *Wrapper) Put(i *Item) error {
 }
 
 func (w *Wrapper) Get(t Target) (*Item, error) {
+	w.mu.Lock()
+	defer w.mu.Unlock()
+
 	i, err := w.s.Get(t)
 	if err != nil {
 		return nil, err
